@@ -8,8 +8,8 @@ Strings that may contain arbitrary characters travel as `.`-separated code point
 * `collect.reset`                                   → `ok`
 * `collect.fs pre=<path> tree=<D:name|F:name|U , …>` → `ok` | `bad-op`       (preorder, `U` closes a directory)
 * `collect.prog path=<path> imports=<stem,…> stmts=<stmt;…>` → `ok`
-     stmt = `d|obj|bind|fname|p1,p2|k:v,k:v|tag`  `w|obj|name|id|k:v,…`  `v|bind`;  v = `b0 b1 i<int> f<enc> s<enc> o`
-* `collect.run root=<path> paths=<path,…> ignore=<enc,…> taskfiles=<enc,…> preloaded=<a.b,…> perm=<k> [ptasks=<path>|<enc name>|<tag>,…]`
+     stmt = `d|obj|bind|fname|p1,p2|k:v,k:v|tag`  `w|obj|name|id|k:v,…`  `v|bind`  `m|obj|<mixed 0/1>`;  v = `b0 b1 i<int> f<enc> s<enc> o`
+* `collect.run root=<path> paths=<path,…> ignore=<enc,…> taskfiles=<enc,…> preloaded=<a.b,…> perm=<k> [ptasks=<path>|<enc name>|<tag>|<marked hasMeta mixed as 0/1>,…]`
      → `exit=<n> fails=<n> files=<n> tasks=<enc short name>:<tag>,… exec=<tag>,…`   (sorted)
 * `collect.walk root=… paths=… ignore=…`             → `files=<path,…>` (in walk order)
 * `collect.pmatch path=<path> pat=<enc>`             → `1` | `0`
@@ -62,6 +62,7 @@ def decStmt? (s : String) : Option Stmt :=
     let o ← obj.toNat?; let n ← decOpt? name; let i ← decOpt? id; let kw ← decKV? kwargs
     pure (.wrap o n i kw)
   | ["v", bind] => (decS? bind).map Stmt.value
+  | ["m", obj, mixed] => do let o ← obj.toNat?; pure (.mark o (mixed == "1"))
   | _ => none
 
 /-- preorder tokens → forest; the stack holds (directory name, children so far, reversed). -/
@@ -100,7 +101,10 @@ def mkEnv? (st : CollectSt) (a : Args) : Option Env := do
          progs := st.progs,
          preloaded := (splitList (a.get "preloaded")).map (fun s => s.splitOn "."),
          ptasks := ← (splitList (a.get "ptasks")).mapM (fun (t : String) => match t.splitOn "|" with
-            | [f, n, tag] => do let n ← decS? n; let tg ← tag.toNat?; pure (pathOf f, n, tg)
+            | [f, n, tag, flags] => do
+              let n ← decS? n; let tg ← tag.toNat?
+              pure { file := pathOf f, name := n, tag := tg, marked := flags.toList[0]? == some '1',
+                     hasMeta := flags.toList[1]? == some '1', mixedPrio := flags.toList[2]? == some '1' }
             | _ => none) }
 
 def collectHandle (st : CollectSt) (cmd : String) (a : Args) : CollectSt × String :=
